@@ -98,6 +98,26 @@ CHECKS["C17"] = dict(
          "forward pass of spec/Binding.v on rattr's own warnings over the generated catalogue."),
    note=FA_NOTE, design_ref="DESIGN.md section 6 C17, section 11")
 
+RES_NOTE = COMMON_NOTE + ("Shared result-generation model coq/model/Results.v: single-file environment (Import targets do not resolve here - imports are C06/C12); the iteration order of every call set "
+   "is an input taken from the real run; diagnostics of simplification are not modelled; --exclude matching is an oracle. harness/res_lib.py snapshots the real IR before/after generate_results_from_ir.")
+CHECKS["C03"] = dict(
+   technique="Coq: refutation witnesses (vm_compute on the faithful model), store-monotonicity of the fold by induction over arbitrary trees, string-level unbind lemmas, single-node-tree theorem; closure spec (lower/upper bounds with Python binding) judging rattr's results; exact model/rattr correspondence incl. mutated IR",
+   text=("Full statement REFUTED twice (C03_refuted_compound_argument, C03_refuted_shared_callee; known findings KF_C03_1/2). Proved for every tree/store/call: inlining only adds (C03_inlining_only_adds), names with unbound base pass unchanged and a bound prefix is replaced by the "
+         "argument text with THAT TEXT as new base (C03_unbound_names_pass_unchanged, C03_bound_prefix_is_replaced - the exact statement of the compound-argument defect), a function without resolvable call gets a one-node tree (C03_no_resolvable_call_no_inlining). "
+         "'results = closure' outside the two finding classes is decided by the Coq closure checkers (lower_ok / upper_ok / calls_ok, binding = spec/PyBind.v) on rattr's own results over tree-shaped and random call graphs x definition orders, with the model compared exactly to rattr."),
+   note=RES_NOTE, design_ref="DESIGN.md section 6 C03, Appendix A, section 11")
+CHECKS["C14"] = dict(
+   technique="Coq: refutation witness, C14_partial (no resolvable call => IR untouched, for all files) and monotone-growth theorem by induction over arbitrary trees; exact model/rattr comparison of the IR after generation",
+   text=("C14_full REFUTED (C14_refuted; known finding KF_C14_1). Proved for all files: if no function has a resolvable call generation returns the IR untouched (C14_partial); in every case the IR after generation contains the IR before (C14_ir_only_grows). "
+         "Every case of the run compares the model's predicted mutated IR with rattr's IR after generation exactly, so a mutation outside the finding class or different from the prediction is reported with the program as replay; second generations are compared too."),
+   note=RES_NOTE, design_ref="DESIGN.md section 6 C14, Appendix A, section 11")
+CHECKS["C05"] = dict(
+   technique="Coq: refutation witness for order dependence, order-independence of leaf functions and monotonicity theorems; runs under permutations / unrelated definitions / second generation (model-predicted) and real subprocesses under several PYTHONHASHSEED values",
+   text=("C05_order_independent REFUTED (C05_refuted: same four functions, two orders; known finding KF_C05_1); hash-seed dependence reproduced from the corpus witness (KF_C05_2). Proved for all files: functions without resolvable call are unaffected by order (C05_leaf_functions_order_independent); "
+         "earlier generations only add (C05_earlier_generations_only_add). Every program is run under permutations of its definitions, with unrelated definitions, and twice in one process; a difference is a known finding only if the program is in the finding class AND the model reproduces every variant exactly; "
+         "otherwise it is reported with the two differing variants as replay. Hash-seed runs are real subprocesses."),
+   note=RES_NOTE + " Hash-seed determinism of everything before result generation is covered by C18's checks.", design_ref="DESIGN.md section 6 C05, section 11")
+
 NOT_YET = {}
 
 def main():
